@@ -264,18 +264,20 @@ class Interp:
             return Perm(Lin(), None, "unknown rows")
         # private helpers / private methods are entered
         if depth < 3:
-            fn, self_val = None, None
-            if isinstance(e.func, ast.Attribute) and u(e.func.value) == "self" and e.func.attr in self.cls.methods:
-                fn = self.cls.methods[e.func.attr].node
-                self_val = True
-            elif isinstance(e.func, ast.Name):
-                callee = self.idx.resolve_call(self.module, e, None)
-                if callee is not None and getattr(callee, "cls", None) is None and isinstance(getattr(callee, "node", None), ast.FunctionDef) \
-                        and not getattr(callee, "njit", False) and callee.module is self.module:
-                    fn = callee.node
-            if fn is not None:
-                return self.enter(fn, e, env, depth, self_val)
+            r_ = self.enterable(e)
+            if r_ is not None:
+                return self.enter(r_[0], e, env, depth, r_[1])
         return UNK
+
+    def enterable(self, e):
+        if isinstance(e.func, ast.Attribute) and u(e.func.value) == "self" and self.cls is not None and e.func.attr in self.cls.methods:
+            return self.cls.methods[e.func.attr].node, True
+        if isinstance(e.func, ast.Name):
+            callee = self.idx.resolve_call(self.module, e, None)
+            if callee is not None and getattr(callee, "cls", None) is None and isinstance(getattr(callee, "node", None), ast.FunctionDef) \
+                    and not getattr(callee, "njit", False) and callee.module is self.module:
+                return callee.node, None
+        return None
 
     def enter(self, fn, call, env, depth, is_method):
         params = [a.arg for a in fn.args.args]
@@ -312,6 +314,35 @@ class Interp:
                     key = call.args[i].id if isinstance(call.args[i], ast.Name) else u(call.args[i])
                     env[key] = finals[0]
         return rets[0] if rets and all(repr(r) == repr(rets[0]) for r in rets) else UNK
+
+    def enter_paths(self, fn, call, env, depth, is_method):
+        """one caller environment per path of the helper: [(returned value, env after the call)] — used where the helper's result is what the caller
+        assigns, so that `if mode == "sort": return A` / `return B` stays two paths instead of an unknown"""
+        params = [a.arg for a in fn.args.args]
+        if is_method:
+            params = params[1:]
+        local = {k: v for k, v in env.items() if k.startswith("self.")}
+        defaults = fn.args.defaults
+        for i, p in enumerate(params):
+            if i < len(call.args):
+                local[p] = self.ev(call.args[i], env, depth)
+            else:
+                kw = [k for k in call.keywords if k.arg == p]
+                di = i - (len(params) - len(defaults))
+                local[p] = self.ev(kw[0].value, env, depth) if kw else (self.ev(defaults[di], {}, depth) if 0 <= di < len(defaults) else UNK)
+        outs = self.run(strip_docstring(fn.body), [local], depth + 1)
+        rebound = {t.id for st_ in ast.walk(fn) if isinstance(st_, ast.Assign) for t in st_.targets if isinstance(t, ast.Name)}
+        res = []
+        for o in outs:
+            e2 = copy.copy(env)
+            for k, v in o.items():
+                if k.startswith("self."):
+                    e2[k] = v
+            for i, p in enumerate(params):
+                if i < len(call.args) and p not in rebound and isinstance(call.args[i], (ast.Name, ast.Attribute)) and isinstance(o.get(p), Seq):
+                    e2[call.args[i].id if isinstance(call.args[i], ast.Name) else u(call.args[i])] = o[p]
+            res.append((o.get("<ret>", NONE), e2))
+        return res
 
     def cond(self, t, env):
         """True / False / None (undecided)"""
@@ -353,7 +384,8 @@ class Interp:
             return [env]
         if isinstance(st, ast.Assign):
             if isinstance(st.value, ast.Call) and call_name(st.value) == "insert_aabbs" and len(st.targets) == 1:
-                self.checkpoints.append((copy.copy(env), st))
+                order_ = self.ev(st.value.args[4], env, depth) if len(st.value.args) > 4 else UNK
+                self.checkpoints.append((copy.copy(env), st, order_))
                 tg = st.targets[0].elts if isinstance(st.targets[0], ast.Tuple) else [st.targets[0]]
                 argtxt = [u(a) for a in st.value.args]
                 for t in tg:
@@ -364,6 +396,14 @@ class Interp:
                     else:
                         self.store(t, UNK, env, st)
                 return [env]
+            if isinstance(st.value, ast.Call) and len(st.targets) == 1 and isinstance(st.targets[0], ast.Name) and depth < 3:
+                r_ = self.enterable(st.value)
+                if r_ is not None:
+                    outs_ = []
+                    for ret_, e2 in self.enter_paths(r_[0], st.value, env, depth, r_[1]):
+                        self.store(st.targets[0], ret_, e2, st)
+                        outs_.append(e2)
+                    return outs_ or [env]
             for t in st.targets:
                 if isinstance(t, (ast.Tuple, ast.List)) and isinstance(st.value, (ast.Tuple, ast.List)) and len(t.elts) == len(st.value.elts):
                     vals = [self.ev(v, env, depth) for v in st.value.elts]
